@@ -354,6 +354,7 @@ pub unsafe extern "C" fn __clear_cache(start: *mut c_char, end: *mut c_char) {
         return;
     }
     if QUIET_ALL.load(SeqCst) {
+        flush_hook(start as u64, end as u64);
         return;
     }
     let _b = Busy::new();
@@ -371,6 +372,17 @@ pub unsafe extern "C" fn __clear_cache(start: *mut c_char, end: *mut c_char) {
     };
     emit(json!({"ev":"Flush","start":a8(s),"end":a8(e),"len":len,"content":content,"mapped":watch::readable(s,len),
         "covers": watch::covers(s, e), "lock": lock_state()}));
+    flush_hook(s, e);
+}
+
+/// a driver may ask to be told about every flush the library requests (the earliest moment at which freshly written code
+/// may be executed by anybody): used to let ANOTHER thread call a function the instant its entry has been flushed
+pub static FLUSH_HOOK: Mutex<Option<Box<dyn Fn(u64, u64) + Send>>> = Mutex::new(None);
+fn flush_hook(s: u64, e: u64) {
+    let g = FLUSH_HOOK.lock().unwrap_or_else(|x| x.into_inner());
+    if let Some(h) = g.as_ref() {
+        h(s, e);
+    }
 }
 
 pub fn owned_live() -> usize {
